@@ -38,9 +38,10 @@ PROPS = {
     "C09": {
         "level_text": "Every input the parser accepts from a systematic product of token kinds x grammatical positions, the repository's .j5s/.bcl files and grammar-directed random files is formatted; oracles: Fmt succeeds, output re-parses, position-free tree and comment sequence equal, Fmt(Fmt(x)) == Fmt(x).",
         "level_note": "Equality of documents is judged on the parser's own tree (projection listed in the evidence assumptions); inputs are generated, not all texts.",
+        "needs_cli": True,
         "shards": 16,
         "rule": "cases: systematic products (every value/literal kind x key x operator x trailing comment; every tag/mark/qualifier form x every header ending; description, comment and blank-line layouts), every .j5s/.bcl file of the repository, grammar-directed generated files (strings with every escapable and non-ASCII character, regexes with slashes, nested arrays, block comments, multi-line descriptions, arbitrary indentation) and token-level mutations of them; only inputs the parser accepts are evaluated. Non-trivial = the accepted document has at least one statement; distinct by hash of the input text.",
-        "floors": ["fmt:systematic", "fmt:repo-file", "fmt:generated", "c09:accepted", "c09:string-escape", "c09:escaped-newline", "c09:non-ascii", "c09:block-comment", "c09:description", "c09:array", "c09:blank-lines", "c09:comments"],
+        "floors": ["c09:cli-write", "fmt:systematic", "fmt:repo-file", "fmt:generated", "c09:accepted", "c09:string-escape", "c09:escaped-newline", "c09:non-ascii", "c09:block-comment", "c09:description", "c09:array", "c09:blank-lines", "c09:comments"],
         "assumptions": COMMON_ASSUMPTIONS + [
             "document equality is judged on the parser's own tree projected to: block type, tags with marks, qualifiers, nesting, assignment key/operator/literal kind+value (arrays recursively), descriptions as words and paragraph breaks; comments are compared as the re-lexed sequence of comment tokens (trailing blanks of line comments ignored)",
             "whether a block was written with an empty body or without a body is not judged",
